@@ -216,10 +216,11 @@ _MISSING = object()
 
 
 class RunResult:
-    __slots__ = ('status', 'value', 'exc', 'sched', 'drain_steps', 'seq_at_return', 'harness_error')
+    __slots__ = ('status', 'value', 'exc', 'sched', 'drain_steps', 'seq_at_return', 'harness_error', 'at_return')
 
 
-def run_sim(fn, fs, chooser, step_cap=5000, mem_total=64 << 30, cpu_count=4, queue_cap=None, drain=True):
+def run_sim(fn, fs, chooser, step_cap=5000, mem_total=64 << 30, cpu_count=4, queue_cap=None, drain=True,
+            on_return=None):
     """Runs fn() as the main simulated thread.  status: ok | raised | deadlock | stepcap."""
     r = RunResult()
     r.value = None
@@ -243,6 +244,8 @@ def run_sim(fn, fs, chooser, step_cap=5000, mem_total=64 << 30, cpu_count=4, que
                 r.status = 'raised'
                 r.exc = e
             r.seq_at_return = fs.seq
+            if on_return is not None:
+                on_return(r)
             r.drain_steps = sched.drain() if drain else 0
         finally:
             core.SimQueue.cap_override = None
